@@ -1,6 +1,40 @@
-(** C03 - placeholder until the batch theorems land. *)
-From Coq Require Import List.
-From BP Require Import Base.Field Model.VerifyTop.
-Theorem C03_placeholder : MAX_BATCH = 256.
-Proof. reflexivity. Qed.
-Print Assumptions C03_placeholder.
+(** C03 — batch verification: structure theorems about the model of the repaired code (the chunk loop
+    is explicit, constant 256).  The "only if" direction for equation failures is probabilistic (a bad
+    member survives for at most one value of its weight: C08 + random oracle) and is not a theorem. *)
+From Coq Require Import List Arith NArith Bool.
+From BP Require Import Base.Field Model.Verifier Model.VerifyTop Proofs.VerifyTopP.
+Import ListNotations.
+
+(** the chunks cover the batch exactly, in order, each non-empty and of at most 256 members *)
+Theorem C03_chunks_cover : forall (A : Type) (l : list A),
+  concat (chunks_of (length l) MAX_BATCH l) = l /\
+  Forall (fun ch => length ch <= MAX_BATCH) (chunks_of (length l) MAX_BATCH l) /\
+  Forall (fun ch => ch <> []) (chunks_of (length l) MAX_BATCH l).
+Proof.
+  intros A l. repeat split; [apply chunks_of_concat; unfold MAX_BATCH; auto with arith|apply chunks_of_bound|
+                             apply chunks_of_nonempty; unfold MAX_BATCH; auto with arith].
+Qed.
+Print Assumptions C03_chunks_cover.
+
+Theorem C03_empty_refused : forall (K : Fld) ofN mode ns np nt ms orc,
+  ns = 0 \/ np = 0 \/ nt = 0 -> verify_batch K ofN mode ns np nt ms orc = Err.
+Proof. exact batch_refuses_empty. Qed.
+Print Assumptions C03_empty_refused.
+
+Theorem C03_length_mismatch_refused : forall (K : Fld) ofN mode ns np nt ms orc,
+  ns <> np \/ nt <> ns -> verify_batch K ofN mode ns np nt ms orc = Err.
+Proof. exact batch_refuses_length_mismatch. Qed.
+Print Assumptions C03_length_mismatch_refused.
+
+Theorem C03_disagreement_refused : forall (K : Fld) ofN mode first rest ws z,
+  (exists mb, In mb rest /\ (mb_bits K mb <> mb_bits K first \/ mb_T K mb <> mb_T K first \/ mb_Henc K mb <> mb_Henc K first
+                             \/ mb_Gbenc K mb <> mb_Gbenc K first)) ->
+  fst (verify_chunk K ofN mode (first :: rest) ws z) = Err.
+Proof. exact chunk_refuses_disagreement. Qed.
+Print Assumptions C03_disagreement_refused.
+
+(** on success a chunk returns exactly one result per member, the i-th belonging to the i-th member *)
+Theorem C03_results_aligned : forall (K : Fld) ofN mode ms ws z masks,
+  fst (verify_chunk K ofN mode ms ws z) = Ok masks -> masks = map (mask_of K ofN mode) ms.
+Proof. exact chunk_results_aligned. Qed.
+Print Assumptions C03_results_aligned.
